@@ -20,7 +20,8 @@ match_single_attribute = re.compile(
     r'(?P<name>[^ =/>\n\t\r]+)'
     r'((?P<eq>\s*=\s*)'
     r'((?P<quote>[\'"])(?P<value>.*?)(?P=quote)|'
-    r'(?P<alt_value>([^\s\'">/]|/(?!>))+))|'
+    # (a quote inside an unquoted value is part of the value)
+    r'(?P<alt_value>([^\s\'">/]|/(?!>))([^\s>/]|/(?!>))*))|'
     r'(?P<simple_value>(?![ \n\t\r]*=)))',
     re.UNICODE | re.DOTALL)
 match_comment = re.compile(
